@@ -308,15 +308,15 @@ theorem embedded_end_record_found (a e' b : Bytes) (hlen : e'.length = 22) (hsig
   exact endRecData_full a e' hlen hsig hz
 
 /-- … and when the payload spells a COMPLETE archive (local entries, central directory and end record of other
-    members `zs`, written for any offset `base ≤ pre.length`), the file cut right after it OPENS and yields those other
-    members: `zipfile` shifts every offset by `concat = pre.length - base`.  This is the mechanism of the defect found
+    members `zs`, written for any offset `base`), the file cut right after it OPENS and yields those other
+    members: `zipfile` shifts every offset by the integer `concat = pre.length - base`.  This is the mechanism of the defect found
     in round 7 (`ConstrainedQuadraticModel.from_file` / `DiscreteQuadraticModel.from_file` returned the embedded
     model for a truncated file; repaired in dimod by checking that the members tile the file from the header on / that
     the `BIAS` section has its recorded length): the side condition of the truncation theorems cannot be dropped for
     the loaders as they were. -/
 theorem embedded_archive_opens (crc32 : Bytes → Nat) (inflate : Bytes → Option Bytes) (pre : Bytes) (base : Nat) (zs : List ZEntry)
-    (hbase : base ≤ pre.length) (hz : ∀ z ∈ zs, z.OK crc32 inflate) (hcount : zs.length < 256 ^ 2)
-    (hsize : pre.length + (zipLocals zs).length + (zipCD base zs).length < 4294967295) :
+    (hz : ∀ z ∈ zs, z.OK crc32 inflate) (hcount : zs.length < 256 ^ 2)
+    (hsize : base + (zipLocals zs).length + (zipCD base zs).length < 4294967295) :
     zipOpen (readDirBytes crc32 inflate) (pre ++ zipBytes base zs) = some (zs.map fun z => (z.name, z.content)) := by
   have h256 : (256 : Nat) ^ 4 = 4294967296 := by decide
   obtain ⟨a, b, c⟩ := eocdRecord_shape zs.length (zipCD base zs).length (base + (zipLocals zs).length)
@@ -327,7 +327,7 @@ theorem embedded_archive_opens (crc32 : Bytes → Nat) (inflate : Bytes → Opti
     simp [zipBytes, List.append_assoc]
   rw [hfile]
   exact zipOpen_full _ _ _ _ a b c (by rw [d]; simp only [List.length_append]; omega)
-    (readDirBytes_zipBytes_shift crc32 inflate pre base zs hbase hz hcount (by omega))
+    (readDirBytes_zipBytes_shift crc32 inflate pre base zs hz hcount hsize)
 
 /-- **CQM files cut at any byte offset, closed**: for every CQM in the format's domain whose file contains the end-record
     signature only in its last 22 bytes, every proper prefix of the bytes `to_file` writes (header dictionary, members,
@@ -356,8 +356,9 @@ theorem truncation_safe_dqm_closed (crc32 : Bytes → Nat) (inflate : Bytes → 
     (wf : DqmWF c) (hnpy : ∀ m ∈ dqmMembers c, m.OK) (hl : JOKs (serializeLabels labels)) (hn : labels.length = c.caseStarts.length)
     (hcrc : ∀ b, crc32 b < 256 ^ 4) (hcodec : ∀ d, deflate = some d → ∀ b, inflate (d b) = some b) (hμ : ∀ i, (μ i).OK)
     (hfit : ∀ m ∈ npzArchive (dqmMembers c), MemberFits deflate m)
-    (hsize : (npzBytes crc32 deflate μ (dqmMembers c)).length < 4294967295)
-    (hocc : ∀ i, SigAt (npzBytes crc32 deflate μ (dqmMembers c)) i → (npzBytes crc32 deflate μ (dqmMembers c)).length ≤ i + 22)
+    (hsize : dqmBlobBase ignore c labels + (npzBytes crc32 deflate μ (dqmBlobBase ignore c labels) (dqmMembers c)).length < 4294967295)
+    (hocc : ∀ i, SigAt (npzBytes crc32 deflate μ (dqmBlobBase ignore c labels) (dqmMembers c)) i →
+      (npzBytes crc32 deflate μ (dqmBlobBase ignore c labels) (dqmMembers c)).length ≤ i + 22)
     (hlen : (dumpsDict (dqmCountsDict (dqmCounts c) (dqmVariablesFlag ignore labels))).length + 65 < 2 ^ 32)
     (hvlen : (dumpsJ (.arr (serializeLabels labels))).length + 64 < 256 ^ nlb4) :
     ∃ pad, pad < 64 ∧ ∀ k, k < (dumpDqm crc32 deflate μ ignore c labels).length →
@@ -371,7 +372,7 @@ theorem truncation_safe_dqm_closed (crc32 : Bytes → Nat) (inflate : Bytes → 
                   if dqmVariablesFlag ignore labels then some (serializeLabels labels) else none), []) ∧
         (dumpDqm crc32 deflate μ ignore c labels).length - pad ≤ k) := by
   obtain ⟨x, e, hxe, h22, hsig, hz, hdir, _, hnpz, _⟩ :=
-    readDqmBlob_npz crc32 inflate deflate μ c wf hnpy hcrc hcodec hμ hfit hsize
+    readDqmBlob_npz crc32 inflate deflate μ (dqmBlobBase ignore c labels) c wf hnpy hcrc hcodec hμ hfit hsize
   have h256 : (256 : Nat) ^ 4 = 4294967296 := by decide
   unfold dumpDqm
   rw [hxe] at hocc hsize ⊢
